@@ -254,3 +254,141 @@ Proof.
   - intros f [Hf|[Hf|[]]]; subst; [left | right]; reflexivity.
   - intros f [Hf|[]]; subst; reflexivity.
 Qed.
+
+(* ================================================================== round 5: properties of the checker itself *)
+(* ---- structural equality of guard conditions is exact: cexpr_eqb x y = true <-> x = y ---- *)
+Section CexprInd.
+  Variable P : cexpr -> Prop.
+  Hypothesis HName : forall s, P (CName s).
+  Hypothesis HThis : P CThis.
+  Hypothesis HLit : forall s, P (CLit s).
+  Hypothesis HMem : forall b s, P b -> P (CMem b s).
+  Hypothesis HNot : forall c, P c -> P (CNot c).
+  Hypothesis HUn : forall op c, P c -> P (CUn op c).
+  Hypothesis HBin : forall op a b, P a -> P b -> P (CBin op a b).
+  Hypothesis HCall : forall f args, Forall P args -> P (CCall f args).
+  Hypothesis HOther : forall s, P (COther s).
+  Fixpoint cexpr_ind' (c : cexpr) : P c :=
+    match c with
+    | CName s => HName s | CThis => HThis | CLit s => HLit s
+    | CMem b s => HMem b s (cexpr_ind' b) | CNot x => HNot x (cexpr_ind' x) | CUn op x => HUn op x (cexpr_ind' x)
+    | CBin op a b => HBin op a b (cexpr_ind' a) (cexpr_ind' b)
+    | CCall f args => HCall f args ((fix go (l : list cexpr) : Forall P l :=
+                                       match l with [] => Forall_nil P | x :: r => Forall_cons x (cexpr_ind' x) (go r) end) args)
+    | COther s => HOther s
+    end.
+End CexprInd.
+
+Lemma cexpr_eqb_refl : forall x, cexpr_eqb x x = true.
+Proof.
+  induction x using cexpr_ind'; simpl; rewrite ?String.eqb_refl, ?IHx, ?IHx1, ?IHx2; try reflexivity.
+  induction H as [|a l Ha Hl IH]; [reflexivity|]. simpl in *. rewrite Ha. exact IH.
+Qed.
+
+Lemma cexpr_eqb_eq : forall x y, cexpr_eqb x y = true -> x = y.
+Proof.
+  induction x using cexpr_ind'; intros y E; destruct y; simpl in E; try discriminate;
+    repeat match goal with H : _ && _ = true |- _ => apply andb_prop in H; destruct H end;
+    repeat match goal with H : String.eqb _ _ = true |- _ => apply String.eqb_eq in H; subst end;
+    try reflexivity.
+  - f_equal. apply IHx. assumption.
+  - f_equal. apply IHx. assumption.
+  - f_equal. apply IHx. assumption.
+  - f_equal; [apply IHx1 | apply IHx2]; assumption.
+  - f_equal. revert args0 H1. induction H as [|a l Ha Hl IH]; intros [|b m] E; try discriminate; [reflexivity|].
+    apply andb_prop in E. destruct E as [E1 E2]. f_equal; [apply Ha; exact E1 | apply IH; exact E2].
+Qed.
+
+Theorem cexpr_eqb_spec : forall x y, cexpr_eqb x y = true <-> x = y.
+Proof. intros x y. split; [apply cexpr_eqb_eq | intros ->; apply cexpr_eqb_refl]. Qed.
+
+Theorem gcomp_eqb_spec : forall x y, gcomp_eqb x y = true <-> x = y.
+Proof.
+  intros x y. split.
+  - destruct x, y; simpl; intros E; try discriminate;
+      repeat match goal with H : _ && _ = true |- _ => apply andb_prop in H; destruct H end;
+      repeat match goal with H : cexpr_eqb _ _ = true |- _ => apply cexpr_eqb_eq in H; subst end;
+      repeat match goal with H : String.eqb _ _ = true |- _ => apply String.eqb_eq in H; subst end;
+      repeat match goal with H : Bool.eqb _ _ = true |- _ => apply Bool.eqb_prop in H; subst end; reflexivity.
+  - intros ->. destruct y; simpl; rewrite ?cexpr_eqb_refl, ?String.eqb_refl, ?Bool.eqb_reflx; reflexivity.
+Qed.
+
+(* hence an accepted guard level IS (not merely resembles) an error exit or one of the reviewed guards of the route *)
+Theorem guard_ok_exact : forall r g, guard_ok r g = true -> forall c, In c g -> c = GErrExit \/ In c (r_guards r).
+Proof.
+  intros r g H c Hc. destruct (guard_ok_spec r g H c Hc) as [E|[c' [Hin Heq]]]; [left; exact E|].
+  right. apply gcomp_eqb_spec in Heq. subst. exact Hin.
+Qed.
+
+(* ---- the checker is monotone: more reset code (more writes in the route) can never un-cover a member ---- *)
+Lemma existsb_incl : forall {A} (f : A -> bool) l1 l2, incl l1 l2 -> existsb f l1 = true -> existsb f l2 = true.
+Proof.
+  intros A f l1 l2 Hi H. apply existsb_exists in H. destruct H as [x [Hx Hf]]. apply existsb_exists. exists x. split; [apply Hi; exact Hx | exact Hf].
+Qed.
+
+Theorem covered_monotone : forall r ws1 ws2 c f, incl ws1 ws2 -> covered r ws1 c f = true -> covered r ws2 c f = true.
+Proof.
+  intros r ws1 ws2 c f Hi H. unfold covered in *. apply orb_prop in H. apply orb_true_iff. destruct H as [H|H].
+  - left. unfold covered_plain in *. apply orb_prop in H. apply orb_true_iff. destruct H as [H|H].
+    + left. eapply existsb_incl; eassumption.
+    + right. unfold applies_both in *. apply existsb_exists in H. destruct H as [w1 [Hw1 H]].
+      apply existsb_exists. exists w1. split; [apply Hi; exact Hw1|].
+      apply andb_prop in H. destruct H as [Ha Hb]. rewrite Ha. simpl.
+      destruct (negate_last (w_guard w1)) as [[pre other]|]; [|discriminate].
+      apply andb_prop in Hb. destruct Hb as [Hp Hb]. rewrite Hp. simpl. eapply existsb_incl; eassumption.
+  - right. unfold covered_special in *. apply existsb_exists in H. destruct H as [s [Hs H]].
+    apply existsb_exists. exists s. split; [exact Hs|].
+    apply andb_prop in H. destruct H as [Ha Hb]. rewrite Ha. simpl.
+    rewrite forallb_forall in *. intros sub Hsub. eapply existsb_incl; [exact Hi | apply Hb; exact Hsub].
+Qed.
+
+(* ... and reviewing more guards never un-covers a member either *)
+Lemma guard_ok_more_guards : forall r1 r2 g, r_objs r1 = r_objs r2 -> incl (r_guards r1) (r_guards r2) ->
+  guard_ok r1 g = true -> guard_ok r2 g = true.
+Proof.
+  intros r1 r2 g _ Hi H. unfold guard_ok in *. rewrite forallb_forall in *. intros c Hc. specialize (H c Hc).
+  destruct c; try exact H; eapply existsb_incl; eassumption.
+Qed.
+
+(* a member on no route's write set and not persistent is reported: the list of uncovered members is complete *)
+Theorem uncovered_complete : forall cs fs r c f,
+  In r routes -> In c (r_classes r) -> In f (fields_of cs c) ->
+  covered r (route_writes fs r) c f = false -> is_persistent r c f = false ->
+  In (r_name r, c, f) (uncovered cs fs).
+Proof.
+  intros cs fs r c f Hr Hc Hf Hcov Hper. unfold uncovered. apply in_flat_map. exists r. split; [exact Hr|].
+  apply in_flat_map. exists c. split; [exact Hc|]. apply in_map_iff. exists f. split; [reflexivity|].
+  apply filter_In. split; [exact Hf|]. unfold field_ok. rewrite Hcov, Hper. reflexivity.
+Qed.
+
+(* ---- the closure of a FollowAll root is complete on data for which reach_closed holds ---- *)
+Lemma func_exists_calls : forall fs n, func_exists fs n = false -> calls_of fs n = [].
+Proof.
+  intros fs n H. unfold calls_of, find_func. unfold func_exists in H.
+  destruct (find (fun f => String.eqb (f_name f) n) fs) as [f|] eqn:E; [|reflexivity].
+  apply find_some in E. destruct E as [Hin Heq]. exfalso.
+  assert (existsb (fun f0 => String.eqb (f_name f0) n) fs = true) by (apply existsb_exists; exists f; split; assumption). congruence.
+Qed.
+
+Lemma closed_complete : forall fs l, closedb fs l = true ->
+  forall a b, calls_star fs a b -> In a l -> func_exists fs b = true -> In b l.
+Proof.
+  intros fs l Hc a b Hs. induction Hs as [a|a x b Hax Hxb IH]; intros Ha Hb; [exact Ha|].
+  destruct (func_exists fs x) eqn:Ex.
+  - apply IH; [|exact Hb]. unfold closedb in Hc. rewrite forallb_forall in Hc. specialize (Hc a Ha).
+    rewrite forallb_forall in Hc. specialize (Hc x Hax). rewrite Ex in Hc. simpl in Hc. apply mem_In. exact Hc.
+  - (* x is not an extracted function: it has no call edges, so b = x, which contradicts func_exists b *)
+    exfalso. inversion Hxb as [|x' y b' Hxy _]; subst.
+    + congruence.
+    + unfold callee in Hxy. rewrite (func_exists_calls fs x Ex) in Hxy. destruct Hxy.
+Qed.
+
+Theorem route_closure_complete : forall fs, reach_closed fs = true ->
+  forall r rt, In r routes -> In rt (r_roots r) -> rt_follow rt = FollowAll ->
+  forall n, calls_star fs (rt_fn rt) n -> func_exists fs n = true -> In n (route_funcs fs r).
+Proof.
+  intros fs H r rt Hr Hrt Hf n Hs Hn. unfold reach_closed in H. rewrite forallb_forall in H. specialize (H r Hr).
+  rewrite forallb_forall in H. specialize (H rt Hrt). rewrite Hf in H. apply andb_prop in H. destruct H as [Hroot Hcl].
+  unfold route_funcs. apply in_flat_map. exists rt. split; [exact Hrt|].
+  apply (closed_complete fs (root_funcs fs rt) Hcl (rt_fn rt) n Hs); [apply mem_In; exact Hroot | exact Hn].
+Qed.
